@@ -6,6 +6,8 @@ CONSTANTS
   MinZero = FALSE
   KEdge = 9
   KOut = 9
+  HasRit = FALSE
+  KRit = 0
   Variant = "repaired"
 INVARIANT TypeOK
 INVARIANT NoCrash
